@@ -199,6 +199,34 @@ pub mod cases {
             END"],
             checks: &[NoWarnings, Has("fnf_f_default()->E{E(1)}"), Has("fnf_g_default()->u32{2}"), Has("fna_f_default()->E{E(1)}"), Has("fna_h_default()->Zz{Zz(3)}"), Has("fnzy_h_default()->Zz{Zz(3)}"),
                       Has("pubstructE(pubu32)"), Has("pubstructZz(pubu32)")] },
+        // ---- C03: automatic tagging is decided by the tags WRITTEN on the components of the type itself; a tag written in front of
+        //      a parameterized type definition is not a tag on the component that instantiates it
+        Case { ob: "C03.cases.automatic_tags_depend_only_on_the_components_own_tags", srcs: &["M DEFINITIONS AUTOMATIC TAGS ::= BEGIN
+            Signed {ToBeSigned} ::= [APPLICATION 7] SEQUENCE { content ToBeSigned, signature BIT STRING }
+            Unsigned {ToBeSigned} ::= SEQUENCE { content ToBeSigned }
+            Message ::= SEQUENCE { version INTEGER, body Signed { BOOLEAN } }
+            Reply ::= CHOICE { code INTEGER, body Signed { BOOLEAN } }
+            PlainMessage ::= SEQUENCE { version INTEGER, body Unsigned { BOOLEAN } }
+            Manual ::= SEQUENCE { version [5] INTEGER, body [6] Signed { BOOLEAN } }
+            END"],
+            checks: &[AttrsHave("pubstructMessage{", "automatic_tags"), ItemHas("pubstructMessage{", "pubversion:Integer,pubbody:MessageBody"), AttrsHave("pubenumReply{", "automatic_tags"),
+                      ItemHas("pubenumReply{", "code(Integer),body(ReplyBody)"), AttrsHave("pubstructPlainMessage{", "automatic_tags"),
+                      ItemHas("pubstructManual{", "#[rasn(tag(context,5))]pubversion:Integer"), ItemHas("pubstructManual{", "#[rasn(tag(context,6))]pubbody:ManualBody")] },
+        // ---- C06: an extensible type inclusion never selects a fixed width
+        Case { ob: "C06.cases.extensible_type_inclusion_is_not_fixed_width", srcs: &["M DEFINITIONS AUTOMATIC TAGS ::= BEGIN
+            Small ::= INTEGER (0..255)
+            T ::= SEQUENCE { extended INTEGER (Small, ...), plain INTEGER (0..255), marked INTEGER (0..255, ...) }
+            U ::= CHOICE { wide INTEGER (INCLUDES Small, ...), narrow INTEGER (0..255) }
+            END"],
+            checks: &[ItemHas("pubstructT{", "pubextended:Integer"), ItemHas("pubstructT{", "pubplain:u8"), ItemHas("pubstructT{", "pubmarked:Integer"), ItemHas("pubenumU{", "wide(Integer)"), ItemHas("pubenumU{", "narrow(u8)")] },
+        // ---- C07: an OBJECT IDENTIFIER arc that does not fit the emitted arc type is refused, never wrapped
+        Case { ob: "C07.cases.object_identifier_arcs_are_rendered_exactly_or_refused", srcs: &["M DEFINITIONS AUTOMATIC TAGS ::= BEGIN
+            plain OBJECT IDENTIFIER ::= { 1 2 840 113549 4294967295 }
+            big OBJECT IDENTIFIER ::= { joint-iso-itu-t uuid(25) 4294967296 }
+            uuid-root OBJECT IDENTIFIER ::= { joint-iso-itu-t uuid(25) }
+            huge OBJECT IDENTIFIER ::= { uuid-root 329800735698586629295641978511506172918 7 }
+            END"],
+            checks: &[Has("1u32,2u32,840u32,113549u32,4294967295u32"), Lacks("25u32,0u32"), Lacks("3374214134u32")] },
         // ---- C05: anonymous extensible types declared inside a [[ ]] version group stay extensible
         Case { ob: "C05.cases.anonymous_types_inside_a_version_group_keep_their_own_extensibility", srcs: &["M DEFINITIONS AUTOMATIC TAGS ::= BEGIN
             Report ::= SEQUENCE { id INTEGER, ..., plain CHOICE { x INTEGER, ..., y BOOLEAN },
